@@ -52,6 +52,7 @@ const (
 	FeatSourceMapComment
 	FeatTopLevelThis
 	FeatWarn // code that draws a warning
+	FeatGlobals
 )
 
 type Module struct {
@@ -130,7 +131,7 @@ func GenProject(g G, root string) *Project {
 		}
 		m := &Module{ID: i, Kind: k, Version: 1, Path: fmt.Sprintf("%s/m%d.%s", dir, i, k)}
 		// features
-		for bit := 0; bit < 10; bit++ {
+		for bit := 0; bit < 11; bit++ {
 			if g.chance(25) {
 				m.Feat |= 1 << bit
 			}
@@ -210,6 +211,9 @@ func GenProject(g G, root string) *Project {
 				}
 			} else {
 				imp.Style = ImpDefault
+				if tm.Kind == "json" {
+					imp.Style = []int{ImpDefault, ImpNamed, ImpStar}[g.n(3)]
+				}
 				if tm.Kind == "css" {
 					imp.Style = ImpSideEffect
 				}
@@ -382,6 +386,14 @@ func (p *Project) RenderModule(m *Module) string {
 		case nonJS && im.Style == ImpRequire:
 			fmt.Fprintf(&sb, "const asset%d = require(%s);\n", id, q)
 			used = append(used, fmt.Sprintf("asset%d", id))
+		case nonJS && t.Kind == "json" && (im.Style == ImpNamed || im.Style == ImpStar):
+			// named (and default) imports of a JSON file's top-level properties
+			fmt.Fprintf(&sb, "import { marker as jm%d, list as jl%d } from %s;\n", id, id, q)
+			used = append(used, fmt.Sprintf("jm%d", id), fmt.Sprintf("jl%d", id))
+			if im.Style == ImpStar {
+				fmt.Fprintf(&sb, "import asset%d from %s;\n", id, q)
+				used = append(used, fmt.Sprintf("asset%d", id))
+			}
 		case nonJS:
 			fmt.Fprintf(&sb, "import asset%d from %s;\n", id, q)
 			used = append(used, fmt.Sprintf("asset%d", id))
@@ -415,6 +427,10 @@ func (p *Project) RenderModule(m *Module) string {
 		fmt.Fprintf(&sb, "interface I%d { x: number; y?: string }\ntype T%d = I%d | null;\n", m.ID, m.ID, m.ID)
 	}
 	fmt.Fprintf(&sb, "console.log(%q);\n", m.marker())
+	if m.Feat&FeatGlobals != 0 {
+		fmt.Fprintf(&sb, "Object.freeze({ k: %d });\nconst pi%d = Math.PI * %d;\n", m.ID, m.ID, m.Salt+1)
+		used = append(used, fmt.Sprintf("pi%d", m.ID))
+	}
 	if m.Feat&FeatCollide != 0 {
 		fmt.Fprintf(&sb, "let helper = (x) => x + %d;\nlet value = helper(%d);\nfunction shared() { return value }\n", m.ID, m.Salt)
 		used = append(used, "shared()")
